@@ -1648,3 +1648,36 @@ E('C11', 'outputfunc-func-alias', S2, """            result = self._func(*args, 
         except Exception as err:
             self.log_error(
                 "output function failed; args: %s; error: %r",""")
+
+# ---- C12 R12.2 at most one outcome / R12.5 every started run awaited (seeds C12-1, C12-2)
+V('C12', 'cancel-report-then-run-at-sentinel', S2, """                if new_data is None:
+                    stop = True
+                    break
+                self.log_debug("Discarding: %r", data)
+                for ev in self._on_cancel:
+                    ev.send(self, trigger='cancel', put=data)
+                data = new_data
+""", """                self.log_debug("Discarding: %r", data)
+                for ev in self._on_cancel:
+                    ev.send(self, trigger='cancel', put=data)
+                if new_data is None:
+                    stop = True
+                    break
+                data = new_data
+""", 'R12.2')
+V('C12', 'start-gather-on-output-count', S2, "        if tasks:\n            await asyncio.gather(*tasks, return_exceptions=True)",
+  "        if self.output > 0:\n            await asyncio.gather(*tasks, return_exceptions=True)", 'R12.5')
+V('C12', 'start-gather-only-when-stop-data', S2, "        if tasks:\n            await asyncio.gather(*tasks, return_exceptions=True)",
+  "        if tasks and self._stop_data is not None:\n            await asyncio.gather(*tasks, return_exceptions=True)", 'R12.5')
+V('C12', 'cancel-run-twice', S2, """            task = asyncio.create_task(self._output_coro_wrapper(data))
+
+    async def _ctrl_wait""", """            task = asyncio.create_task(self._output_coro_wrapper(data))
+            if self._guard_time <= 0.0:
+                await task
+                task = asyncio.create_task(self._output_coro_wrapper(data))
+
+    async def _ctrl_wait""", 'R12.2')
+E('C12', 'start-gather-len-test', S2, "        if tasks:\n            await asyncio.gather(*tasks, return_exceptions=True)",
+  "        if len(tasks) > 0:\n            await asyncio.gather(*tasks, return_exceptions=True)")
+E('C12', 'start-gather-unconditional', S2, "        if tasks:\n            await asyncio.gather(*tasks, return_exceptions=True)",
+  "        await asyncio.gather(*tasks, return_exceptions=True)")
